@@ -2,12 +2,12 @@ package harness
 
 // WorldSpec describes the simulated environment of a whole-database run.
 type WorldSpec struct {
-	Roots        []RootSpec `json:"roots"`
-	NumWorkers   int        `json:"workers"`
-	SendDurNs    int64      `json:"send_ns"`
-	GCPeriodNs   int64      `json:"gc_ns"`
-	MaxDirCount  uint64     `json:"max_dir"`
-	SeqBase      uint64     `json:"seq_base,omitempty"`
+	Roots       []RootSpec `json:"roots"`
+	NumWorkers  int        `json:"workers"`
+	SendDurNs   int64      `json:"send_ns"`
+	GCPeriodNs  int64      `json:"gc_ns"`
+	MaxDirCount uint64     `json:"max_dir"`
+	SeqBase     uint64     `json:"seq_base,omitempty"`
 }
 
 type RootSpec struct {
